@@ -40,8 +40,13 @@ def run(case, max_steps=150000):
         fn = A.async_background_batcher(bf, **kw) if case['form'] == 'deco' else A.async_background_batcher(**kw)(bf)
         done_phase = [0] * len(case['phases'])
 
-        def make_thread(p, li, calls):
-            async def main():
+        def make_thread(p, li, spec):
+            # spec: a list of calls, or {'calls': [...], 'then': [...]}: the loop is left stopped (not closed) after its
+            # calls, and is run again for the 'then' calls once the next phase is over
+            calls = spec['calls'] if isinstance(spec, dict) else spec
+            then = spec.get('then') if isinstance(spec, dict) else None
+
+            async def main(calls=calls):
                 loop = aio.get_running_loop()
                 t0 = loop.time()
                 tasks = []
@@ -64,6 +69,7 @@ def run(case, max_steps=150000):
                     if d > 0:
                         await aio.sleep(d)
                     rec = {'i': len(callers), 'phase': p, 'loop_index': li, 'loop': loop.sim_name, 'key': c['name'],
+                           'part': 2 if calls is then else 1,
                            'arrived': None, 'done': None, 'outcome': None}
                     callers.append(rec)
                     t = loop.create_task(call(rec, c))
@@ -80,13 +86,37 @@ def run(case, max_steps=150000):
                         w.keep.clear()
                         sim.loops[:] = [l for l in sim.loops if not l.is_closed()]
                         gc.collect()
+                if then is None:
+                    try:
+                        aio.run(main())
+                    finally:
+                        done_phase[p] += 1
+                    return
+                loop = w.new_loop()
+                aio.set_event_loop(loop)
                 try:
-                    aio.run(main())
+                    try:
+                        loop.run_until_complete(main())
+                    finally:
+                        done_phase[p] += 1
+                    if p + 1 < len(case['phases']):
+                        sim.block_until(lambda: done_phase[p + 1] >= len(case['phases'][p + 1]), what='next-phase')
+                    loop.run_until_complete(main(then))
                 finally:
-                    done_phase[p] += 1
+                    try:
+                        left = aio.all_tasks(loop)
+                        for t in left:
+                            t.cancel()
+                        if left:
+                            loop.run_until_complete(aio.gather(*left, return_exceptions=True))
+                    finally:
+                        aio.set_event_loop(None)
+                        loop.close()
             return thread
 
-        hz = 60 + 10 * sum(c['at'] + cfg['bt'] + case['bdur'] for ph in case['phases'] for lp in ph for c in lp)
+        def _calls(lp):
+            return lp if isinstance(lp, list) else lp['calls'] + (lp.get('then') or [])
+        hz = 60 + 10 * sum(c['at'] + cfg['bt'] + case['bdur'] for ph in case['phases'] for lp in ph for c in _calls(lp))
 
         def watchdog():
             sim.sleep(hz)
